@@ -127,7 +127,7 @@ RULES["R-OVERLAP"]["props_filter"] = _fn_filter([("move_elements_at", ["C01", "C
 # a cursor method outside the judged next/next_back/size_hint/len set can skip owning items (drained elements are then never destroyed): also C03
 RULES["R-ITER"]["props_filter"] = _fn_filter([("unclassified-cursor-method", ["C02", "C13", "C14", "C03"])], default=["C02", "C13", "C14"])
 RULES["R-STACKCAP"]["props_filter"] = _fn_filter([("zero-size-capacity", ["C11"])], default=["C11", "C05"])
-RULES["R-PROVENANCE"]["props_filter"] = _fn_filter([("reporter", ["C04", "C13"]), ("clone_type::clone_fn:destroys-on-unwind", ["C06", "C03", "C08"]), ("clone_type::clone_fn", ["C08", "C03", "C09", "C01"]), ("clone", ["C08", "C03"]), ("CLONE_FN", ["C08"]), ("destr", ["C03"])], default=["C04", "C08", "C03"])
+RULES["R-PROVENANCE"]["props_filter"] = _fn_filter([("unwind-destroys-in-flight", ["C06", "C03"]), ("reporter", ["C04", "C13"]), ("clone_type::clone_fn:destroys-on-unwind", ["C06", "C03", "C08"]), ("clone_type::clone_fn", ["C08", "C03", "C09", "C01"]), ("clone", ["C08", "C03"]), ("CLONE_FN", ["C08"]), ("destr", ["C03"])], default=["C04", "C08", "C03"])
 
 PROPERTIES = {
     "C01": {"rules": ["R-BOUNDS", "R-FORMULA", "R-UNITS", "R-OVERLAP", "R-PROVENANCE", "R-FORGET"],
@@ -142,6 +142,9 @@ PROPERTIES = {
     "C06": {"rules": ["R-ORDER", "R-BOUNDLOOP", "R-LENLOWER", "R-PROVENANCE", "R-FORMULA"], "not_decided": "that later operations stay fully usable beyond LEN<=CAP and visible-range integrity"},
     "C07": {"rules": ["R-LENLOWER", "R-FORMULA"], "not_decided": ""},
     "C08": {"rules": ["R-FORMULA", "R-ORDER", "R-EXPANDGUARD", "R-PROVENANCE"],
+            # `Clone` must exist for every Cloneable constraint set on EVERY backend (a bound such as `M::Mem: MemResizable` on the impl removes it from the
+            # fixed-capacity ones): the Clone-availability cells of the P15 matrix
+            "probes": ["P15"], "probe_filter": (lambda key: ":Clone:" in key),
             "not_decided": "each source element cloned exactly once beyond the clone function's loop shape; independence beyond separate storage"},
     "C09": {"rules": ["R-FORGET", "R-FORMULA", "R-PROVENANCE"], "not_decided": ""},
     "C10": {"rules": ["R-ARITH", "R-FORMULA", "R-HEAP"], "not_decided": "the count of reallocations over 2^16 pushes (only its structural cause, the doubling term, is checked)"},
